@@ -109,10 +109,11 @@ def parseRat (s : String) : Option (Nat × Nat) :=
   | [a, b] => do pure (← a.toNat?, ← b.toNat?)
   | _ => none
 
-/-- time stamps of the recorded (channel) messages are non-negative and non-decreasing -/
+/-- time stamps of the recorded (channel) messages do not go backwards on the `int32` millisecond clock (the
+    difference is taken as the code takes it, with wrap-around: the clock may pass 2^31 during a recording) -/
 def stampsOK : Int → List (Bytes × Int) → Bool
   | _, [] => true
-  | last, m :: r => if isChannelMsg m.1 then decide (last ≤ m.2) && stampsOK m.2 r else stampsOK last r
+  | last, m :: r => if isChannelMsg m.1 then decide (0 ≤ wrap32 (m.2 - last)) && stampsOK m.2 r else stampsOK last r
 
 def answer (res : Nat) (ot : Option Track) : String :=
   match ot with
@@ -132,7 +133,7 @@ def answer (res : Nat) (ot : Option Track) : String :=
     answer: `panic=0 t=<track> w=<bytes of the format-0 file with the closed track>` | `panic=1`.
     `record.ticks res= bpm= d=<Δms>,…` — the reference conversion.
     Outside the input language (`bad-op`): `bpm` with a zero numerator/denominator, resolution 0 or ≥ 32768,
-    time stamps of recorded messages that go backwards or lie outside `int32`, tick values that do not fit `uint32`. -/
+    time stamps of recorded messages that go backwards (as `int32` differences), tick values that do not fit `uint32`. -/
 def handle (op : String) (args : List String) : String :=
   match natField "res" args, (field "bpm" args).bind parseRat with
   | some res, some (bn, bd) =>
@@ -143,7 +144,7 @@ def handle (op : String) (args : List String) : String :=
     | "record.msgs" =>
       match (field "msgs" args).bind parseMsgs with
       | some ms =>
-        if !stampsOK 0 ms || ms.any (fun m => m.2 ≥ 2147483648) then "bad-op"
+        if !stampsOK 0 ms then "bad-op"
         else answer res (some (record tk tempo ms))
       | none => "bad-op"
     | "record.frames" =>
@@ -152,7 +153,7 @@ def handle (op : String) (args : List String) : String :=
         match delivered (Live.listenFrames recCfg fs) with
         | none => "panic=1"
         | some ms =>
-          if !stampsOK 0 ms || ms.any (fun m => m.2 ≥ 2147483648) then "bad-op"
+          if !stampsOK 0 ms then "bad-op"
           else answer res (some (record tk tempo ms))
       | none => "bad-op"
     | "record.live" =>
@@ -163,8 +164,8 @@ def handle (op : String) (args : List String) : String :=
           match received (Live.chunkToks chunks) with
           | none => "panic=1"
           | some ms =>
-            if !stampsOK 0 ms || ms.any (fun m => m.2 ≥ 2147483648) then "bad-op"
-            else answer res (some (record tk tempo ms)) ++ s!" msgs={Live.showMsgs (ms.map fun m => (some m.1, m.2))}"
+            if !stampsOK 0 ms then "bad-op"
+            else answer res (some (record tk tempo ms)) ++ s!" msgs={Live.showMsgs (ms.map fun m => (some m.1, wrap32 m.2))}"
         | none => "bad-op"
       | none => "bad-op"
     | "record.ticks" =>
